@@ -24,6 +24,8 @@ h_post(void)
 	IN(size_t, len);
 	__CPROVER_assume(len <= CTR_MAXLEN);
 	CTR_MK_BUFS(in, out, len);
+	g_ctr_in = in;
+	g_ctr_out = out;
 	const uint8_t * inp = in;
 	uint8_t * outp = out;
 	size_t l = len;
